@@ -35,6 +35,19 @@ def make_array(shape, dtype, seed):
     return (rng.standard_normal(shape) + 1j * rng.standard_normal(shape)).astype(dt)
 
 
+def _variants_equal(a, b):
+    """In-place and copying variants run on arrays with possibly different memory layouts (the twin
+    is a contiguous copy), so floating-point reductions may associate differently: integers must be
+    identical, floats agree to a few ulp of the largest magnitude."""
+    if a.dtype.kind not in "fc":
+        return bool(np.array_equal(a, b))
+    if a.size == 0:
+        return True
+    eps = float(np.finfo(a.real.dtype).eps)
+    scale = max(float(np.max(np.abs(a))), float(np.max(np.abs(b))), 1e-300)
+    return bool(np.max(np.abs(a - b)) <= 64 * eps * scale)
+
+
 class Entry:
     """A live dataset + its reference model."""
 
@@ -179,7 +192,7 @@ class Harness:
             a, b = r, twin
         if a is None or b is None:
             self.viol("%s(modify_in_place=False) returned None" % name)
-        if a.array.shape != b.array.shape or a.array.dtype != b.array.dtype or not np.array_equal(a.array, b.array, equal_nan=a.array.dtype.kind in "fc"):
+        if a.array.shape != b.array.shape or a.array.dtype != b.array.dtype or not _variants_equal(a.array, b.array):
             self.viol("%s: in-place and copying variants differ in data (shape %s/%s dtype %s/%s)" % (name, a.array.shape, b.array.shape, a.array.dtype, b.array.dtype))
         if not (np.array_equal(np.asarray(a.origin, float), np.asarray(b.origin, float)) and np.array_equal(np.asarray(a.sampling, float), np.asarray(b.sampling, float)) and list(a.units) == list(b.units)):
             self.viol("%s: in-place and copying variants differ in calibration: %s %s %s vs %s %s %s" % (name, a.origin, a.sampling, a.units, b.origin, b.sampling, b.units))
